@@ -63,6 +63,17 @@ class Taint:
                 return self.clean(e.func.value, env) and all(self.clean(a, env) for a in e.args) and all(self.clean(k.value, env) for k in e.keywords)
             if fn in ("len", "int", "bool"):
                 return True
+            # a module-level helper: its single return expression is analysed with its parameters
+            # clean iff the arguments are (so an extracted escape / replace helper is seen through)
+            if isinstance(e.func, ast.Name) and e.func.id in self.f.module.functions and not e.keywords:
+                h = self.f.module.functions[e.func.id]
+                body = [s for s in h.node.body if not (isinstance(s, ast.Expr) and isinstance(s.value, ast.Constant))]
+                if len(e.args) == len(h.params) and body and isinstance(body[-1], ast.Return) and body[-1].value is not None:
+                    henv = {p.name: self.clean(a, env) for p, a in zip(h.params, e.args)}
+                    sub = Taint(h)
+                    sub.out_vars = set()
+                    henv = sub.block(body[:-1], henv)
+                    return sub.clean(body[-1].value, henv)
             return False
         if isinstance(e, (ast.ListComp, ast.GeneratorExp)):
             env2 = dict(env)
